@@ -2,10 +2,13 @@
 //!
 //! For every listed prefix history, the step that talks to the node (a block being processed or a
 //! triggered add_appointment) is run with the node going away exactly at its r-th RPC, for every r.
-//! The outage lasts k further polls (block source down as well), optionally with a block mined
-//! meanwhile; then the node comes back and the chain monitor polls twice. All of it runs under the
-//! controlled scheduler, so "blocked forever" is decided exactly (no enabled thread), not by a
-//! time-out.
+//! On the request path the outage lasts k further polls of the chain monitor (block source down as
+//! well); on the block path, where the chain monitor itself is the thread waiting in the carrier, it
+//! lasts k further failed reachability checks of the carrier. Optionally a block is mined meanwhile;
+//! then the node comes back and the chain monitor polls again. All of it runs under the controlled
+//! scheduler, so "blocked forever" is decided exactly (no enabled thread), not by a time-out; timers
+//! (the monitor's polling interval, the carrier's `wait_timeout`) elapse only when nothing else can
+//! run, the polling timer first unless an early time-out is allowed (thorough tier: one per execution).
 
 use std::collections::BTreeSet;
 use std::sync::{Arc, Mutex as StdMutex};
@@ -57,19 +60,27 @@ struct Result_ {
     /// replies of the public API while the outage was known
     during: Vec<String>,
     flagged_when_probed: Vec<bool>,
+    /// per probe: a call of the tower had already failed and the node was still away
+    outage_known_when_probed: Vec<bool>,
     final_state: Option<String>,
     faulty_reply: String,
     rpc_total: u64,
     rpc_log: Vec<String>,
     points: Vec<crate::sched::PointRec>,
     flooded: bool,
+    timeouts: usize,
 }
 
 fn state_of(world: &World) -> Option<String> {
     std::panic::catch_unwind(std::panic::AssertUnwindSafe(|| {
         let db = world.db_view();
         let mut s = String::new();
+        let newcomer = user_keys(9).hex();
         for (k, u) in &db.users {
+            if *k == newcomer {
+                // the newcomer of the API probe: whether they got in depends on when they asked
+                continue;
+            }
             s.push_str(&format!("U{}:{:?};", &k[..8], u));
         }
         for (k, a) in &db.appointments {
@@ -87,7 +98,12 @@ fn state_of(world: &World) -> Option<String> {
 }
 
 fn execute(c: &OutageCase, choices: &[usize]) -> Result_ {
+    execute_with(c, choices, 0)
+}
+
+fn execute_with(c: &OutageCase, choices: &[usize], early_timeouts: usize) -> Result_ {
     let sched = Sched::new(choices.to_vec());
+    sched.allow_early_timeouts(early_timeouts);
     let guard = setup_hooks(&sched);
     let mut world = World::new(c.cfg);
     world.boot().unwrap();
@@ -106,6 +122,11 @@ fn execute(c: &OutageCase, choices: &[usize]) -> Result_ {
         if let Some(r) = c.rpc_index {
             e.rpc_down_from = Some(e.rpc_count + r);
             e.src_down_with_rpc = true;
+            if c.faulty == Faulty::Poll {
+                // nobody but the waiting carrier talks to the node: the outage is over after its first
+                // failed call plus k failed reachability checks
+                e.rpc_down_failures_left = Some(1 + c.k as u64);
+            }
         }
         if let Some(i) = c.src_index {
             let base = e.src_count;
@@ -116,15 +137,23 @@ fn execute(c: &OutageCase, choices: &[usize]) -> Result_ {
     let flagged: Arc<StdMutex<Vec<bool>>> = Arc::new(StdMutex::new(Vec::new()));
     let reachable = world.tower.as_ref().unwrap().reachable.clone();
 
+    let noticed: Arc<StdMutex<Vec<bool>>> = Arc::new(StdMutex::new(Vec::new()));
     let probe = {
+        let env_p = env.clone();
+        let noticed = noticed.clone();
         let api = api.clone();
         let during = during.clone();
         let flagged = flagged.clone();
         let reachable = reachable.clone();
         move || {
             let flag = *reachable.0.lock().unwrap();
+            let known_outage = {
+                let e = env_p.lock();
+                e.outage_started && e.rpc_down_from.is_some()
+            };
+            noticed.lock().unwrap().push(known_outage);
             let r = api.get_subscription_info(user_keys(1).sign(b"get subscription info"));
-            let a = api.register(&user_keys(2));
+            let a = api.register(&user_keys(9));
             flagged.lock().unwrap().push(flag);
             during.lock().unwrap().push(format!(
                 "info:{};register:{}",
@@ -133,67 +162,49 @@ fn execute(c: &OutageCase, choices: &[usize]) -> Result_ {
             ));
         }
     };
-    // the chain monitor's part of the story after the faulty step started
-    let monitor_script = {
-        let monitor = monitor.clone();
-        let env = env.clone();
-        let c = c.clone();
-        let probe = probe.clone();
-        move || {
-            // the chain monitor polls every few seconds: by then everything else has run as far as
-            // it can (idle = proceed only when every other thread is finished or blocked)
-            let poll = |m: &Arc<StdMutex<Option<Monitor>>>| {
-                crate::sched::idle();
-                let mut g = m.lock().unwrap();
-                g.as_mut().unwrap().poll();
-            };
-            let mine = |env: &crate::sim::Env, what: Mined| match what {
-                Mined::Nothing => {}
-                Mined::Empty => {
-                    env.lock().mine(vec![]);
-                }
-                Mined::Dispute2 => {
-                    env.lock().mine(vec![crate::sim::build_tx(TxName::D(2))]);
-                }
-            };
-            if c.rpc_index.is_some() {
-                mine(&env, c.mined);
-                for _ in 0..c.k {
-                    poll(&monitor);
-                    probe();
-                }
-                if c.k == 0 {
-                    // the outage is over before the chain monitor polls again; if the carrier has
-                    // noticed it, the API must refuse work in the meantime
-                    crate::sched::idle();
-                    probe();
-                }
-                let mut e = env.lock();
-                e.rpc_down_from = None;
-                e.src_down_with_rpc = false;
-            } else {
-                mine(&env, c.mined);
-            }
-            poll(&monitor);
-            poll(&monitor);
-            // (it keeps polling for ever; one more round is enough to release anything releasable)
-            poll(&monitor);
-            "monitor-done".to_owned()
+    let poll = |m: &Arc<StdMutex<Option<Monitor>>>| {
+        // the chain monitor polls every few seconds: by then everything else has run as far as it can
+        // (idle = proceed only when every other thread is finished or blocked)
+        crate::sched::idle();
+        let mut g = m.lock().unwrap();
+        g.as_mut().unwrap().poll();
+    };
+    let mine = |env: &crate::sim::Env, what: Mined| match what {
+        Mined::Nothing => {}
+        Mined::Empty => {
+            env.lock().mine(vec![]);
+        }
+        Mined::Dispute2 => {
+            env.lock().mine(vec![crate::sim::build_tx(TxName::D(2))]);
         }
     };
     let mut bodies: Vec<Box<dyn FnOnce() -> String + Send>> = Vec::new();
     match &c.faulty {
         Faulty::Poll => {
-            // one chain-monitor thread: the faulty poll, then its later polls
+            // the chain-monitor thread: the faulty poll, then its later polls
             let monitor = monitor.clone();
-            let script = monitor_script.clone();
             bodies.push(Box::new(move || {
                 {
                     let mut g = monitor.lock().unwrap();
                     g.as_mut().unwrap().poll();
                 }
-                script();
+                poll(&monitor);
+                poll(&monitor);
+                poll(&monitor);
                 "polled".to_owned()
+            }));
+            // the rest of the world while the chain monitor is busy (or stuck): a block is mined, a user
+            // and a newcomer talk to the API
+            let env = env.clone();
+            let c2 = c.clone();
+            let probe = probe.clone();
+            bodies.push(Box::new(move || {
+                crate::sched::idle();
+                mine(&env, c2.mined);
+                if c2.rpc_index.is_some() {
+                    probe();
+                }
+                "world-done".to_owned()
             }));
         }
         Faulty::Add { user, disp, blob } => {
@@ -203,7 +214,36 @@ fn execute(c: &OutageCase, choices: &[usize]) -> Result_ {
                 Ok(r) => format!("ok:slots={}", r.available_slots),
                 Err(e) => format!("err:{:?}", e.code),
             }));
-            bodies.push(Box::new(monitor_script));
+            // the chain monitor's part of the story after the faulty request started
+            let monitor = monitor.clone();
+            let env = env.clone();
+            let c = c.clone();
+            let probe = probe.clone();
+            bodies.push(Box::new(move || {
+                if c.rpc_index.is_some() {
+                    mine(&env, c.mined);
+                    for _ in 0..c.k {
+                        poll(&monitor);
+                        probe();
+                    }
+                    if c.k == 0 {
+                        // the outage is over before the chain monitor polls again; if the carrier has
+                        // noticed it, the API must refuse work in the meantime
+                        crate::sched::idle();
+                        probe();
+                    }
+                    let mut e = env.lock();
+                    e.rpc_down_from = None;
+                    e.src_down_with_rpc = false;
+                } else {
+                    mine(&env, c.mined);
+                }
+                poll(&monitor);
+                poll(&monitor);
+                // (it keeps polling for ever; one more round is enough to release anything releasable)
+                poll(&monitor);
+                "monitor-done".to_owned()
+            }));
         }
     }
     let ex = run_threads(&sched, bodies);
@@ -212,6 +252,14 @@ fn execute(c: &OutageCase, choices: &[usize]) -> Result_ {
         Err(p) => p.into_inner().take(),
     };
     world.tower.as_mut().unwrap().monitor = m;
+    if ex.deadlock.is_none() && ex.panics.iter().all(|p| p.is_none()) && ex.diverged.is_none() {
+        // the chain monitor keeps polling for ever: whatever was mined late is picked up eventually
+        let _ = std::panic::catch_unwind(std::panic::AssertUnwindSafe(|| {
+            let t = world.tower.as_mut().unwrap();
+            t.poll();
+            t.poll();
+        }));
+    }
     let flooded = env.lock().rpc_flooded;
     let panics: Vec<String> = ex.panics.iter().filter_map(|p| p.clone()).collect();
     let final_state = if ex.deadlock.is_none() && panics.is_empty() { state_of(&world) } else { None };
@@ -219,17 +267,20 @@ fn execute(c: &OutageCase, choices: &[usize]) -> Result_ {
     let rpc_log_v: Vec<String> = env.lock().rpc_log.iter().map(|r| format!("{}:{}:{}", r.method, r.txid.map(|t| tx_label(&t)).unwrap_or_default(), r.verdict)).collect();
     let during_v = during.lock().unwrap().clone();
     let flagged_v = flagged.lock().unwrap().clone();
+    let noticed_v = noticed.lock().unwrap().clone();
     Result_ {
         blocked: ex.deadlock,
         panics,
         during: during_v,
         flagged_when_probed: flagged_v,
+        outage_known_when_probed: noticed_v,
         final_state,
         faulty_reply: ex.results.first().cloned().flatten().unwrap_or_default(),
         rpc_total,
         rpc_log: rpc_log_v,
         points: ex.points,
         flooded,
+        timeouts: sched.timeouts_fired(),
     }
 }
 
@@ -330,10 +381,10 @@ fn judge(c: &OutageCase, r: &Result_, reference: &Result_) -> Vec<(String, Strin
             ));
         }
     }
-    if c.rpc_index.is_some() && c.k > 0 && r.flagged_when_probed.iter().any(|f| *f) {
+    if c.rpc_index.is_some() && r.flagged_when_probed.iter().zip(r.outage_known_when_probed.iter()).any(|(f, known)| *f && *known) {
         v.push((
             format!("outage-not-noticed:{path}"),
-            format!("{}: a poll failed while the node was away, yet bitcoind is still flagged reachable", c.name),
+            format!("{}: a call to the node failed and it is still away, yet bitcoind is flagged reachable", c.name),
         ));
     }
     // after recovery and two polls everything must be as in the fault-free run
@@ -357,7 +408,8 @@ pub fn replay(v: &serde_json::Value) -> i32 {
     rc.rpc_index = None;
     rc.src_index = None;
     let reference = execute(&rc, &[]);
-    let r = execute(&c, &choices);
+    let early: usize = serde_json::from_value(v["replay"]["early_timeouts"].clone()).unwrap_or(0);
+    let r = execute_with(&c, &choices, early);
     println!("case {c:?}");
     for p in r.points.iter() {
         println!("  {}", p.op);
@@ -376,6 +428,7 @@ pub fn c12(tier: Tier) -> i32 {
     let budget = Duration::from_secs(std::env::var("VERIF_BUDGET_S").ok().and_then(|v| v.parse().ok()).unwrap_or(if tier == Tier::Quick { 50 } else { 600 }));
     let deadline = Instant::now() + budget;
     let bound = if tier == Tier::Quick { 1 } else { 2 };
+    let early = if tier == Tier::Quick { 0 } else { 1 };
     let ks: Vec<u8> = if tier == Tier::Quick { vec![0, 1] } else { vec![0, 1, 2] };
     let mut cases: Vec<OutageCase> = Vec::new();
     for (name, cfg, prefix, faulty) in prefixes() {
@@ -424,6 +477,8 @@ pub fn c12(tier: Tier) -> i32 {
     }
     let total_cases = cases.len();
     let schedules = std::sync::atomic::AtomicU64::new(0);
+    let timeouts = std::sync::atomic::AtomicU64::new(0);
+    let recovered_by_carrier = std::sync::atomic::AtomicU64::new(0);
     let outcomes: StdMutex<BTreeSet<String>> = StdMutex::new(BTreeSet::new());
     let (res, timed_out) = crate::explore::par_map(&cases, Some(deadline), |_, c| {
         let mut rc = c.clone();
@@ -435,8 +490,12 @@ pub fn c12(tier: Tier) -> i32 {
         let mut viols: Vec<(String, String, Vec<usize>)> = Vec::new();
         let mut n = 0u64;
         while let Some(prefix) = stack.pop() {
-            let r = execute(c, &prefix);
+            let r = execute_with(c, &prefix, early);
             n += 1;
+            timeouts.fetch_add(r.timeouts as u64, std::sync::atomic::Ordering::Relaxed);
+            if r.rpc_log.iter().any(|l| l.starts_with("getblockcount::ok")) {
+                recovered_by_carrier.fetch_add(1, std::sync::atomic::Ordering::Relaxed);
+            }
             outcomes.lock().unwrap().insert(format!("{:?}|{:?}|{:?}|{}", r.blocked.is_some(), r.final_state, r.during, r.faulty_reply));
             for (s, d) in judge(c, &r, &reference) {
                 viols.push((s, d, r.points.iter().map(|p| p.chosen).collect()));
@@ -453,7 +512,7 @@ pub fn c12(tier: Tier) -> i32 {
         if let Some(v) = r {
             done += 1;
             for (sig, detail, choices) in v {
-                run.violation(&sig, detail, json!({"engine": "outage", "case": c, "choices": choices}), c.prefix.len() * 10 + c.k as usize);
+                run.violation(&sig, detail, json!({"engine": "outage", "case": c, "choices": choices, "early_timeouts": early}), c.prefix.len() * 10 + c.k as usize);
             }
             if done % 37 == 1 {
                 run.sample(json!({"case": c.name, "faulty": format!("{:?}", c.faulty), "outage_at_rpc": c.rpc_index, "failed_source_call": c.src_index, "polls_during_outage": c.k, "mined_meanwhile": format!("{:?}", c.mined)}));
@@ -462,11 +521,15 @@ pub fn c12(tier: Tier) -> i32 {
     }
     run.set("evaluations", json!(schedules.load(std::sync::atomic::Ordering::Relaxed)));
     run.set("distinct_nontrivial", json!(outcomes.lock().unwrap().len().max(done as usize)));
+    run.set("distinct_observed_outcomes", json!(outcomes.lock().unwrap().len()));
+    run.set("carrier_timeouts_elapsed", json!(timeouts.load(std::sync::atomic::Ordering::Relaxed)));
+    run.set("executions_recovered_by_the_carriers_own_check", json!(recovered_by_carrier.load(std::sync::atomic::Ordering::Relaxed)));
+    run.set("early_timeouts_allowed_per_execution", json!(early));
     run.set("fault_placements", json!(total_cases));
     run.set("fault_placements_explored", json!(done));
     run.set("exhaustive", json!(!timed_out));
     run.set("preemption_bound", json!(bound));
     run.set("rule", json!("prefix histories x the step that talks to the node (block being processed: breach, two breaches, reorg re-submission, stale rebroadcast, multi-block catch-up; triggered add_appointment, accepted and refused penalty) x outage starting at every RPC of that step x k failed polls during the outage x {nothing, empty block, block with another dispute} mined meanwhile; plus every single failed block-source call of the polls. Each placement runs under the controlled scheduler (all schedules of request thread and chain-monitor thread within the pre-emption bound); 'blocked forever' = no enabled thread. evaluations = executions, distinct_nontrivial = distinct (blocked?, final state, API replies during outage) outcomes (at least the number of placements explored)"));
-    run.assume("the chain monitor is the only party that can flag bitcoind reachable again (as in teosd)");
+    run.assume("timers elapse only at quiescence; the chain monitor's polling timer elapses before the carrier's reachability-check timer except for the allowed early time-outs; on the block path the outage ends after a number of failed calls, on the request path when the scripted environment says so");
     run.finish()
 }
